@@ -1606,6 +1606,15 @@ SoPlexBase<R>& SoPlexBase<R>::operator=(const SoPlexBase<R>& rhs)
             _scaler = nullptr;
       }
 
+      // cached images of parameters and counters
+      _rationalFeastol = rhs._rationalFeastol;
+      _rationalOpttol = rhs._rationalOpttol;
+      _rationalMaxscaleincr = rhs._rationalMaxscaleincr;
+      _rationalPosInfty = rhs._rationalPosInfty;
+      _rationalNegInfty = rhs._rationalNegInfty;
+      _optimizeCalls = rhs._optimizeCalls;
+      _unscaleCalls = rhs._unscaleCalls;
+
       // copy boolean flags
       _isRealLPLoaded = rhs._isRealLPLoaded;
       _isRealLPScaled = rhs._isRealLPScaled;
